@@ -53,10 +53,9 @@ const CUM: [i32; 12] = [0, 31, 59, 90, 120, 151, 181, 212, 243, 273, 304, 334];
 const MDAYS: [i32; 12] = [31, 28, 31, 30, 31, 30, 31, 31, 30, 31, 30, 31];
 /// Monday = 1 ... Sunday = 7 for Jan 1st of year y (2014 <= y <= 2022), from the known anchor 2014-01-01 = Wednesday
 fn jan1_weekday(y: i32) -> i32 {
-    let mut wd = 3; // 2014-01-01 was a Wednesday
-    let mut k = 2014;
-    while k < 2023 { if k < y { wd = (wd - 1 + if is_leap(k) { 366 } else { 365 }) % 7 + 1; } k += 1; }
-    wd
+    // 2014 Wed, 2015 Thu, 2016 Fri, 2017 Sun, 2018 Mon, 2019 Tue, 2020 Wed, 2021 Fri, 2022 Sat
+    const JAN1: [i32; 9] = [3, 4, 5, 7, 1, 2, 3, 5, 6];
+    JAN1[(y - 2014) as usize]
 }
 fn weeks_in_year(y: i32) -> i32 { let j = jan1_weekday(y); if j == 4 || (is_leap(y) && j == 3) { 53 } else { 52 } }
 
@@ -139,9 +138,13 @@ fn rule_check<const N: usize>(r: Rule, with_last: bool) {
     set_rule(&mut keep, r, n);
     if with_last { keep.keep_last = Some(m); }
     // the snapshots are handed over oldest first: apply has to sort them
-    let mut snaps = Vec::with_capacity(N);
-    let mut i = N;
-    while i > 0 { i -= 1; snaps.push(snap(time_of(i, &civ[i]), i as u8)); }
+    // built from array literals (typed allocation): with a Vec grown by push() CBMC no longer sees that the
+    // BTreeSets inside each snapshot (paths, tags) are empty and walks BTreeMap::clone / drop recursively
+    let snaps = if N == 3 {
+        vec![snap(time_of(2, &civ[2]), 2), snap(time_of(1, &civ[1]), 1), snap(time_of(0, &civ[0]), 0)]
+    } else {
+        vec![snap(time_of(3 % N, &civ[3 % N]), 3), snap(time_of(2, &civ[2]), 2), snap(time_of(1, &civ[1]), 1), snap(time_of(0, &civ[0]), 0)]
+    };
     let now = time_of(0, &civ[0]);
     let res = keep.apply(snaps, &now);
     let res = match res { Ok(v) => v, Err(e) => { std::mem::forget(e); assert!(false, "apply failed on valid keep options"); return; } };
@@ -169,7 +172,7 @@ fn rule_check<const N: usize>(r: Rule, with_last: bool) {
 macro_rules! rule_instance {
     ($name:ident, $n:expr, $rule:expr, $last:expr) => {
         #[kani::proof]
-        #[kani::unwind(11)]
+        #[kani::unwind(5)]
         #[kani::stub(std::backtrace::Backtrace::capture, crate::error::verif_harness::stub_backtrace_capture)]
         #[kani::stub(jiff::Zoned::year, st_year)]
         #[kani::stub(jiff::Zoned::month, st_month)]
@@ -188,7 +191,7 @@ macro_rules! rule_instance {
 //@ tier: quick
 //@ timeout: 1800
 //@ mem: 16
-//@ unwindset: ^memcmp#0=34; encode_to|to_hex|hex=70; btree=2
+//@ unwindset: ^memcmp#0=34; encode_to|to_hex|hex=70; btree=2; KeepOptions.*matches=11; binary_search_by=12; from_iter|extend|collect|fold=11
 //@ kernel: KeepOptions::{apply, matches, is_valid}, equal_minute / equal_week / equal_day (and the predicates they compose), always_false, SnapshotFile::{must_keep, must_delete, cmp}
 //@ bound: 3 snapshots with symbolic civil times (any valid minute in 2014..=2021, so every ISO week-year edge 2014/15 .. 2021/22 occurs), non-increasing in time, handed over oldest first; one period rule active with count symbolic in -1..=3 (c09_daily_last_3: plus keep-last with symbolic count); delete marks not set
 //@ oracle: result is sorted newest first and snapshot i is kept <=> it is the newest of its period (same minute = same y/m/d/h/mi; same week = same ISO week-year and week; same day = same y/m/d) or the oldest overall, and it is among the first n such candidates (n = -1: all), or keep-last applies; period equality is specified on civil fields / ISO week date
@@ -204,7 +207,7 @@ rule_instance!(c09_daily_last_3, 3, Rule::Daily, true);
 //@ tier: thorough
 //@ timeout: 3000
 //@ mem: 24
-//@ unwindset: ^memcmp#0=34; encode_to|to_hex|hex=70; btree=2
+//@ unwindset: ^memcmp#0=34; encode_to|to_hex|hex=70; btree=2; KeepOptions.*matches=11; binary_search_by=12; from_iter|extend|collect|fold=11
 //@ kernel: as c09_minutely_3, all nine period predicates
 //@ bound: as c09_minutely_3 for the remaining rules; c09_weekly_4: 4 snapshots
 //@ oracle: as c09_minutely_3
